@@ -113,7 +113,10 @@ pub fn check(case: &Case, rec: &mut Rec) -> Option<Failure> {
                             }
                             (*p, rel * cond * (1.0 + d.abs()))
                         } else {
-                            (*p, rel * big2)
+                            // "unchanged within rounding": both runs are within the drift budget tau(t) of the
+                            // exact value (C13), which is tighter than 1e-9 for t below a few thousand
+                            let t = (i + 1) as f64;
+                            (*p, (2.0 * (1e-12 + 1e-15 * t.powf(1.5))).min(rel) * big2)
                         }
                     }
                     None => continue,
@@ -151,8 +154,21 @@ pub fn generate(r: &mut Runner) {
         let d = if mode == 1 { scale * *r.rng.pick(&[0.5, 3.0, 10.0, 100.0]) } else { 0.0 };
         let len = r.rng.range(1, maxlen);
         let regime = *r.rng.pick(gen::REGIMES);
-        let xs = gen::stream(&mut r.rng, regime, len, true, scale);
-        let mut cse = Case::new("C14", ["scale", "shift", "max-min"][mode as usize], name, &ps, &ms);
+        let mut xs = gen::stream(&mut r.rng, regime, len, true, scale);
+        let mut d = d;
+        let mut kind = ["scale", "shift", "max-min"][mode as usize].to_string();
+        // shift, nearly flat stream: prices B + r·2^-20 (r in −8..=8, all exact), shifted by a d that is orders of
+        // magnitude above B: a threshold RELATIVE to the price level is scale-covariant but not shift-covariant
+        if mode == 1 && r.rng.chance(0.35) {
+            let (b0, d0) = *r.rng.pick(&[(2.0, 1048576.0), (384.0, 16000.0), (1.0, 65536.0)]);
+            let tick = (2.0f64).powi(-20);
+            for x in xs.iter_mut() {
+                *x = b0 + (r.rng.below(17) as f64 - 8.0) * tick;
+            }
+            d = d0;
+            kind = "shift-nearly-flat".to_string();
+        }
+        let mut cse = Case::new("C14", &kind, name, &ps, &ms);
         cse.extra = vec![c, d, mode as f64];
         if ind::has_next_name(name) && (mode == 2 || r.rng.chance(0.6)) {
             cse.ops = xs.into_iter().map(Op::Next).collect();
@@ -163,4 +179,4 @@ pub fn generate(r: &mut Runner) {
     }
 }
 
-pub const RULE: &str = "21 indicators (RSI excluded as the property states) × periods to 64 × positive price streams / valid bars in 9 regimes; two instances fed x and c·x (c = 2^k, k in −40..=40, in two thirds of the scale cases; c in {3, 0.1, 7.25, 1e3, 0.37} otherwise) or x and x + d (d > 0) step by step; price-valued outputs must scale / shift, dimensionless ones stay equal: 1e-12 relative for powers of two, 1e-9 otherwise, ratios judged when their condition number (from the C03 reference) is <= 1e6; Maximum(x) = −Minimum(−x) exactly. Volume is not a price and is left unscaled. Non-trivial = more than 2 inputs.";
+pub const RULE: &str = "21 indicators (RSI excluded as the property states) × periods to 64 × positive price streams / valid bars in 9 regimes; two instances fed x and c·x (c = 2^k, k in −40..=40, in two thirds of the scale cases; c in {3, 0.1, 7.25, 1e3, 0.37} otherwise) or x and x + d (d > 0) step by step (a third of the shift cases: nearly flat streams B + r·2^-20 shifted by d >> B; outputs that must stay unchanged are then compared within 2·tau(t)·M); price-valued outputs must scale / shift, dimensionless ones stay equal: 1e-12 relative for powers of two, 1e-9 otherwise, ratios judged when their condition number (from the C03 reference) is <= 1e6; Maximum(x) = −Minimum(−x) exactly. Volume is not a price and is left unscaled. Non-trivial = more than 2 inputs.";
